@@ -239,12 +239,12 @@ Proof.
     apply nodup_app; [rewrite <- snodup_nodup; exact Hnd | exact Hsnd |].
     rewrite forallb_forall. intros x Hx. apply in_map_iff in Hx. destruct Hx as (nf & <- & Hin).
     rewrite forallb_forall in Hdots. pose proof (Hdots _ Hin) as Hd. apply negb_true_iff in Hd.
-    Show.     rewrite (mem_dots _ Hd _ Hsdots). reflexivity.
+    apply negb_true_iff. apply (mem_dots _ Hd _ Hsdots).
   - (* the functions *)
     change (forallb (fun ife => is_std (snd ife) || ws_function (map ent ((s_main, f) :: others) ++ stdl) 0 (fst ife) (snd ife))
               (combine (seq 0 (length (map ent ((s_main, f) :: others) ++ stdl))) (map ent ((s_main, f) :: others) ++ stdl)) = true).
-    set (P := map ent ((s_main, f) :: others) ++ stdl).
     rewrite app_length, seq_app, combine_app by (rewrite seq_length; reflexivity).
+    set (P := map ent ((s_main, f) :: others) ++ stdl).
     rewrite forallb_app. apply andb_true_iff. split.
     + cbn [map length seq combine forallb fst snd]. apply andb_true_iff. split.
       * unfold is_std, ws_function. cbn [ent fe_ns fe_fn snd orb]. rewrite Ha. cbn [nodup forallb andb Nat.eqb negb].
